@@ -47,7 +47,8 @@ package authboss
 //@       bound(result, "mountPathed") == mountPathed && bound(result, "ab") == ab
 //@
 //@ func (*Authboss).UpdatePassword
-//@   property C06 C18
+//@   property C06 C18 C17
+//@   ensures[C17] no_secret_leak: secrets_clean
 //@   -- the stored password is the hasher's output for the new password; remember tokens of
 //@   -- that account are revoked after (and only after) the save succeeded
 //@   ensures[C06] hash_then_save: each Store.Save(?s) -> _ => s == user &&
